@@ -921,7 +921,10 @@ theorem mpq_sub_alloc_safe (s : St) (rn rd an ad bn bd g t1 t2 t : Nat) (hs : s.
 -- non-vacuity of the common-divisor arm: the examples on `exa` above ((B-1)/2 + 1/2 = (B/2)/1; the second gcd is 2)
 example : aorsNum false ((B : Int) - 1) 2 1 2 = 2 ^ 63 ∧ aorsDen false ((B : Int) - 1) 2 1 2 = 1 := by decide +kernel
 
-/-! ## mpq_mul_2exp / mpq_div_2exp (mpq/md_2exp.c), non-zero arm: run only (ops as6_mul_2exp / as6_div_2exp) -/
+/-! ## mpq_mul_2exp / mpq_div_2exp (mpq/md_2exp.c), non-zero arm: the skip loop proved (`skipZeros_spec`); the rest of mord_2exp
+    (MPZ_REALLOC (rdst, len), copy / shift arm, mpz_mul_2exp / mpz_set of the other field) is run only (ops as6_mul_2exp / as6_div_2exp).
+    Missing for `mpq_mul_2exp_alloc_safe`: the copy arm needs only `skipZeros_spec` + MPN_COPY range facts; the shift arm needs the
+    list-level fact that mpn_rshift by < 64 bits of a vector with non-zero top limb leaves at most one zero top limb. -/
 
 /-- 5/(3·B) in one variable (0, 1): the denominator has a whole zero low limb -/
 def ex2e : St := ⟨fun i => if i = 0 then ⟨1, 0, ⟨1, [5]⟩⟩ else ⟨2, 0, ⟨2, [0, 3]⟩⟩, true⟩
@@ -936,5 +939,57 @@ example : (mord_2exp false ex2e 0 1 0 1 64).ok = true ∧ view ((mord_2exp false
     ¬ Mpz.WF (view ((mord_2exp false ex2e 0 1 0 1 64).h 1)) := by decide
 -- 5/(3·B) · 2^70 = 5·2^6/3: skip one limb, then the numerator is shifted left by the remaining 6 bits
 example : valOf (mpq_mul_2exp ex2e 0 1 0 1 70) 0 = 320 ∧ valOf (mpq_mul_2exp ex2e 0 1 0 1 70) 1 = 3 := by decide
+
+/-- the skip loop of mord_2exp (md_2exp.c:42-47) on a non-zero well-formed operand: every `*p` is inside the block (ok is
+    kept), it stops at a limb index k < ABSIZ — at the latest on the non-zero top limb —, with `plow = p[k]` and n reduced by 64·k -/
+theorem skipZeros_spec (s : St) (x : Nat) (hx : OWF (s.h x)) (h0 : (s.h x).size ≠ 0) :
+    ∀ (fuel k n : Nat) (s1 : St), s1.h = s.h → fuel + k = (s.h x).size.natAbs → k < (s.h x).size.natAbs →
+      let r := skipZeros s1 (s.PTR x) fuel k n ((s.h x).buf.limbs.getD k junk)
+      r.2.2.2.h = s.h ∧ r.2.2.2.ok = s1.ok ∧ k ≤ r.1 ∧ r.1 < (s.h x).size.natAbs ∧
+      r.2.2.1 = (s.h x).buf.limbs.getD r.1 junk ∧ r.2.1 + 64 * r.1 = n + 64 * k ∧ (r.2.1 < 64 ∨ r.2.2.1 % 2 = 1 ∨ r.2.2.1 ≠ 0) := by
+  have htop := top_ne_zero (s.h x) hx h0
+  have hfit : (s.h x).size.natAbs ≤ (s.h x).buf.alloc := view_fit hx
+  intro fuel
+  induction fuel with
+  | zero => intro k n s1 _ hk hlt; omega
+  | succ fuel ih =>
+    intro k n s1 hs1 hk hlt
+    simp only [skipZeros]
+    by_cases hc : (decide (n ≥ 64) && (s.h x).buf.limbs.getD k junk == 0) = true
+    · rw [if_pos hc]
+      simp only [Bool.and_eq_true, decide_eq_true_eq, beq_iff_eq] at hc
+      have hk1 : k + 1 < (s.h x).size.natAbs := by
+        by_contra hcon
+        have : k = (s.h x).size.natAbs - 1 := by omega
+        rw [this] at hc; exact htop hc.2
+      have hld : (s1.load (s.PTR x) (k + 1)).1 = (s.h x).buf.limbs.getD (k + 1) junk := by
+        simp only [St.load, St.rd, Buf.read, Ptr.add, St.PTR, hs1, Nat.zero_add]
+        rw [List.getD_eq_getElem?_getD]
+        cases hh : (s.h x).buf.limbs[k + 1]? with
+        | none => simp [List.getElem?_eq_none_iff] at hh; simp [List.drop_eq_nil_of_le hh]
+        | some a => 
+          have := List.getElem?_eq_some_iff.mp hh
+          obtain ⟨hl, ha⟩ := this
+          rw [List.drop_eq_getElem_cons hl]; simp [ha]
+      have hok : (s1.load (s.PTR x) (k + 1)).2.ok = s1.ok := by
+        simp only [St.load, chk_ok, St.rdOk, St.live, Buf.read, Ptr.add, St.PTR, hs1, Nat.zero_add]
+        have : k + 1 + 1 ≤ (s.h x).buf.alloc := by omega
+        simp [this]
+      have hh : (s1.load (s.PTR x) (k + 1)).2.h = s.h := by simp [St.load, hs1]
+      have := ih (k + 1) (n - 64) (s1.load (s.PTR x) (k + 1)).2 hh (by omega) hk1
+      simp only [hld] 
+      obtain ⟨r1, r2, r3, r4, r5, r6, r7⟩ := this
+      refine ⟨r1, by rw [r2, hok], by omega, r4, r5, by omega, r7⟩
+    · rw [if_neg hc]
+      refine ⟨hs1, rfl, Nat.le_refl _, hlt, rfl, rfl, ?_⟩
+      simp only [Bool.and_eq_true, decide_eq_true_eq, beq_iff_eq, not_and] at hc
+      by_cases hn : n ≥ 64
+      · right; right; exact hc hn
+      · left; show n < 64; omega
+
+
+-- on 3·B (limbs [0, 3]) with n = 70: one limb skipped, n left 6, plow = 3
+example : (skipZeros ex2e (ex2e.PTR 1) 2 0 70 0).1 = 1 ∧ (skipZeros ex2e (ex2e.PTR 1) 2 0 70 0).2.1 = 6 ∧
+    (skipZeros ex2e (ex2e.PTR 1) 2 0 70 0).2.2.1 = 3 := by decide
 
 end Mpir.AllocSafe6
